@@ -193,7 +193,7 @@ fn explore<C: Cfg>(report: &Report, inits: &[Vec<u128>], alphabet: &[Letter], de
 // ------------------------------------------------------------------------------------------
 // batch forms == per-symbol loop
 
-fn batch_forms<C: Cfg>(report: &Report, depth: usize)
+pub fn batch_forms<C: Cfg>(report: &Report, depth: usize)
 where
     u64: num_traits::AsPrimitive<C::Pr>,
 {
@@ -263,6 +263,46 @@ where
                     if r.is_ok() || b.bulk() != c.bulk() || b.state() != c.state() {
                         bad.push((format!("AnsCoder::try_encode_symbols | {} | wrong state after a model error in the middle", C::NAME),
                             format!("init {:x?} letters {:?} error at {k}", init, s), json!({"kind": "none"})));
+                    }
+                }
+                // a batch that contains an IMPOSSIBLE symbol at position k must equal the per-symbol loop as well:
+                // the items before it are on the stack, the error is reported, nothing else has changed
+                if !s.is_empty() {
+                    let mko = |l: &Letter| crate::models::OptRaw::<C::Pr, P> { c: num_traits::AsPrimitive::as_(l.c), p: num_traits::AsPrimitive::as_(l.p) };
+                    for k in 0..s.len() {
+                        let items: Vec<(bool, crate::models::OptRaw<C::Pr, P>)> = s.iter().enumerate().map(|(i, l)| (i != k, mko(l))).collect();
+                        let mut c = base.clone();
+                        for (sym, m) in &items[..k] { c.encode_symbol(*sym, *m).unwrap(); }
+                        let want_fail = (to_u128(c.bulk()), c.state().into());
+                        let mut forms: Vec<(&str, bool, AnsCoder<C::W, C::S>)> = vec![];
+                        let mut b = base.clone();
+                        let r = b.encode_symbols(items.iter().cloned());
+                        forms.push(("encode_symbols", r.is_err(), b));
+                        let mut b = base.clone();
+                        let r = b.encode_symbols_reverse(items.iter().rev().cloned().collect::<Vec<_>>());
+                        forms.push(("encode_symbols_reverse", r.is_err(), b));
+                        let mut b = base.clone();
+                        let r = b.try_encode_symbols(items.iter().cloned().map(Ok::<_, ()>));
+                        forms.push(("try_encode_symbols", r.is_err(), b));
+                        let mut b = base.clone();
+                        let r = b.try_encode_symbols_reverse(items.iter().rev().cloned().map(Ok::<_, ()>).collect::<Vec<_>>());
+                        forms.push(("try_encode_symbols_reverse", r.is_err(), b));
+                        if s.windows(2).all(|w| w[0] == w[1]) {
+                            let mut b = base.clone();
+                            let r = b.encode_iid_symbols(items.iter().map(|x| x.0), mko(&s[0]));
+                            forms.push(("encode_iid_symbols", r.is_err(), b));
+                            let mut b = base.clone();
+                            let r = b.encode_iid_symbols_reverse(items.iter().rev().map(|x| x.0).collect::<Vec<_>>(), mko(&s[0]));
+                            forms.push(("encode_iid_symbols_reverse", r.is_err(), b));
+                        }
+                        for (name, failed, b) in forms {
+                            n += 1;
+                            let got: (Vec<u128>, u128) = (to_u128(b.bulk()), b.state().into());
+                            if !failed || got != want_fail {
+                                bad.push((format!("AnsCoder::{name} | {} | a batch with an impossible symbol differs from the per-symbol loop", C::NAME),
+                                    format!("init {:x?} letters {:?} impossible symbol at {k}: error reported: {failed}, coder {:x?} vs loop {:x?}", init, s, got, want_fail), json!({"kind": "none"})));
+                            }
+                        }
                     }
                 }
                 // decode side: decode_symbols / try_decode_symbols / decode_iid_symbols == loop
@@ -471,6 +511,25 @@ fn import_forms<C: Cfg>(report: &Report, depth: usize) {
             same!("from_binary_slice", Some(AnsCoder::<C::W, C::S, _>::from_binary_slice(data)));
             same!("from_reversed_binary", Some(AnsCoder::<C::W, C::S, _>::from_reversed_binary(drev.clone())));
             same!("from_reversed_binary_iter", AnsCoder::<C::W, C::S, _>::from_reversed_binary_iter(data.iter().rev().map(|&x| Ok::<C::W, core::convert::Infallible>(x))).ok());
+        }
+        // exporting a coder that lives on a WRITABLE cursor (owned buffer and borrowed mutable slice with spare room)
+        {
+            n += 2;
+            let finished = to_u128(&base.clone().into_compressed().unwrap());
+            let mut buf: Vec<C::W> = base.bulk().clone();
+            let pos = buf.len();
+            buf.extend(std::iter::repeat(C::w(0x77)).take(C::SBITS as usize / C::WBITS as usize + 2));
+            let c1 = AnsCoder::<C::W, C::S, Cursor<C::W, Vec<C::W>>>::from_raw_parts(Cursor::new_at_pos(buf.clone(), pos).unwrap(), base.state());
+            match c1.into_compressed() {
+                Ok(cur) => { let p2 = constriction::Pos::pos(&cur); if to_u128(&cur.buf()[..p2]) != finished { bad.push((format!("AnsCoder::into_compressed on a Cursor backend | {} | differs from the Vec backend", C::NAME), format!("words {:x?}: cursor holds {:x?}, expected {:x?}", w, to_u128(&cur.buf()[..p2]), finished))); } }
+                Err(_) => bad.push((format!("AnsCoder::into_compressed on a Cursor backend | {} | fails although there is room", C::NAME), format!("words {:x?}", w))),
+            }
+            let mut buf2 = buf.clone();
+            let mut c2 = AnsCoder::<C::W, C::S, Cursor<C::W, &mut [C::W]>>::from_raw_parts(Cursor::new_at_pos_mut(&mut buf2[..], pos).unwrap(), base.state());
+            let view: Option<Vec<u128>> = c2.get_compressed().ok().map(|g| { let p2 = constriction::Pos::pos(&*g); to_u128(&g.buf()[..p2]) });
+            if view.as_ref() != Some(&finished) {
+                bad.push((format!("AnsCoder::get_compressed on a Cursor<&mut [Word]> backend | {} | differs from the Vec backend", C::NAME), format!("words {:x?}: view {:x?}, expected {:x?}", w, view, finished)));
+            }
         }
         // a reversed import keeps encoding to the same words (read back through into_compressed of the twin)
         {
